@@ -36,6 +36,14 @@ def loopinc(a):
     return a + i
 
 
+def _scaled(s, k=3):
+    return s * k
+
+
+def dflt(a):
+    return _scaled(a)
+
+
 def dsum(d):
     return float(d.sum())
 
@@ -69,7 +77,7 @@ def mad(a, b, c):
     return a * b + c
 
 
-ARITY = {"one": 0, "two": 0, "id": 1, "neg": 1, "dbl": 1, "inc": 1, "step": 1, "dsum": 1, "loopinc": 1,
+ARITY = {"one": 0, "two": 0, "id": 1, "neg": 1, "dbl": 1, "inc": 1, "step": 1, "dsum": 1, "loopinc": 1, "dflt": 1,
          "add": 2, "sub": 2, "mul": 2, "sel": 2, "cut": 2, "mad": 3}
 FNS = {n: globals()[n] for n in ARITY}
 
